@@ -808,6 +808,92 @@ pub const HOVER_EXTRA: [&str; 4] = [
 
 pub struct HoverAll;
 
+/// programs in which one word names many things that are not functions
+const NAMED_THINGS: [&str; 3] = [
+    "struct Rec { size: int32, other: bool }\nenum Kind { size, Other(int32) }\ntrait Sized { fn size(Self) -> int32; }\nimpl Sized for Rec { fn size(self: Rec) -> int32 { self.size } }\n// the size of a Rec is its size field\nfn flip(size: bool) -> bool { !size }\nfn main() {\n    let r = Rec { size: 1, other: true };\n    let t = r.size;\n    let label = \"size\";\n    let Rec { size: w, other: o } = r;\n    let k = Kind::size;\n    string_println(label + int32_to_string(t + w))\n}\n",
+    "struct total[T] { total: T }\nimpl[T] total[T] { fn total(self: total[T]) -> T { self.total } }\nfn main() {\n    // total\n    let b = total { total: 2 };\n    string_println(int32_to_string(b.total()))\n}\n",
+    "enum Tree { leaf, node(int32) }\nfn depth(t: Tree) -> int32 { match t { Tree::leaf => 0, Tree::node(deep) => deep } }\nfn main() {\n    let nodes = depth(Tree::node(3)); // node, leaf, deep\n    string_println(int32_to_string(nodes))\n}\n",
+];
+
+/// adding a function nobody calls changes no answer: hover at every offset of every word, before
+/// and after a function of that name (and of a type nothing else has) is appended to the file
+fn run_unrelated_function(i: usize, ctx: &mut Ctx, rep: &mut Report) {
+    let (name, text): (String, String) = if i < SEEDS.len() {
+        (format!("seed{}", i), seed_text(i).0)
+    } else if i < SEEDS.len() + HOVER_EXTRA.len() {
+        (format!("extra{}", i - SEEDS.len()), HOVER_EXTRA[i - SEEDS.len()].to_string())
+    } else {
+        (format!("named-things{}", i - SEEDS.len() - HOVER_EXTRA.len()), NAMED_THINGS[i - SEEDS.len() - HOVER_EXTRA.len()].to_string())
+    };
+    if text.contains("\nimport ") || text.starts_with("import ") {
+        rep.tag("inapplicable:imports");
+        return;
+    }
+    let path = ctx.scratch.single_path();
+    let comp = match crate::oracle::compile_at(&path, &text) {
+        crate::oracle::CompileOutcome::Ok(c) => c,
+        _ => {
+            rep.tag("machinery:program-does-not-compile");
+            rep.sample = Some(json!({"program": name}));
+            return;
+        }
+    };
+    let functions: std::collections::BTreeSet<String> = comp.tast.toplevels.iter().filter_map(|it| if let compiler::tast::Item::Fn(f) = it { Some(f.name.clone()) } else { None }).collect();
+    drop(comp);
+    // every word of the text (identifiers, and the words inside comments and strings) with its offsets
+    let mut words: std::collections::BTreeMap<String, Vec<usize>> = std::collections::BTreeMap::new();
+    let bytes = text.as_bytes();
+    let mut k = 0;
+    while k < bytes.len() {
+        if bytes[k].is_ascii_alphabetic() {
+            let s0 = k;
+            while k < bytes.len() && (bytes[k].is_ascii_alphanumeric() || bytes[k] == b'_') {
+                k += 1;
+            }
+            words.entry(text[s0..k].to_string()).or_default().push(s0);
+        } else {
+            k += 1;
+        }
+    }
+    const KEYWORDS: [&str; 30] = ["fn", "let", "struct", "enum", "trait", "impl", "match", "if", "else", "while", "true", "false", "for", "in", "go", "return", "package", "import", "extern", "dyn", "Self", "self", "type", "array", "int32", "string", "bool", "unit", "int64", "main"];
+    let mut checked = 0u64;
+    let mut reported = std::collections::BTreeSet::new();
+    for (word, offsets) in &words {
+        if KEYWORDS.contains(&word.as_str()) || functions.contains(word) {
+            continue;
+        }
+        let with_fn = format!("{}\nfn {}(only_here: string, and_here: string, last_one: string) -> string {{ only_here }}\n", text, word);
+        // the appended function must leave the program valid (a word that is a variant, say, may not)
+        if !matches!(crate::oracle::compile_at(&path, &with_fn), crate::oracle::CompileOutcome::Ok(_)) {
+            rep.tag("unrelated-function:name-not-free");
+            continue;
+        }
+        for s0 in offsets {
+            for off in *s0..*s0 + word.len() {
+                let (line, col) = line_col(&text, off);
+                checked += 1;
+                let ask = |t: &str| match guarded(|| hover_type(&path, t, line, col)) {
+                    Ok(Ok(t)) => squash(&t),
+                    Ok(Err(_)) => "<nothing>".to_string(),
+                    Err(p) => format!("<panic:{}>", p),
+                };
+                let (before, after) = (ask(&text), ask(&with_fn));
+                if before != after && reported.insert((word.clone(), before.clone(), after.clone())) {
+                    rep.findings.push(Finding {
+                        property: "C20",
+                        class: "hover.answers-with-an-unrelated-function".into(),
+                        site: format!("program={};word={};before={};after={}", name, word, before, after),
+                        detail: format!("{} hover at {}:{} on `{}` says {} and, once an uncalled function of that name is appended, {}", name, line, col, word, before, after),
+                        replay: json!({"kind": "query", "request": "hover", "text": with_fn, "line": line, "col": col, "expected": before}),
+                    });
+                }
+            }
+        }
+    }
+    rep.sub_evaluations = checked;
+    rep.outcome = Some(format!("unrelated-function:{}:{}", name, rep.findings.len()));
+}
+
 impl Family for HoverAll {
     fn name(&self) -> &'static str {
         "hover-all"
@@ -816,17 +902,22 @@ impl Family for HoverAll {
         &["C20"]
     }
     fn rule(&self) -> &'static str {
-        "programs = the 11 query seed programs + 4 extra programs (binders in every pattern form incl. shorthand struct-pattern fields; callees and receivers under prefix operators; one spelling naming a local, a field, a function and a closure parameter) + the 74 corpus programs; for every identifier use and every binder (pattern variable, closure parameter) that the compiler's typed tree records with a source range (variables, parameters, function references, generic functions at each instance) and every byte offset inside it: hover must report exactly the type the typed tree assigns to that use. non-trivial = uses whose spelling is also the name of a top-level function, a field or another binder of a different type; distinct = distinct (program, offset)"
+        "programs = the 11 query seed programs + 4 extra programs (binders in every pattern form incl. shorthand struct-pattern fields; callees and receivers under prefix operators; one spelling naming a local, a field, a function and a closure parameter) + the 74 corpus programs; for every identifier use and every binder (pattern variable, closure parameter) that the compiler's typed tree records with a source range (variables, parameters, function references, generic functions at each instance) and every byte offset inside it: hover must report exactly the type the typed tree assigns to that use. plus, on the seed and extra programs and 3 programs in which one word names a field, a variant, a trait method, a parameter, a type and stands in comments and strings: for every word of the text that is not a function and every offset inside each of its occurrences, the answer is the same before and after an uncalled function of that name is appended to the file. non-trivial = uses whose spelling is also the name of a top-level function, a field or another binder of a different type; distinct = distinct (program, offset)"
     }
     fn cases(&self, _tier: Tier) -> Box<dyn Iterator<Item = Value> + '_> {
         let n = SEEDS.len() + HOVER_EXTRA.len() + crate::families::text::corpus_sources().len() - 1;
-        Box::new((0..n).map(|i| json!({"program": i})))
+        let m = SEEDS.len() + HOVER_EXTRA.len() + NAMED_THINGS.len();
+        Box::new((0..n).map(|i| json!({"program": i})).chain((0..m).map(|i| json!({"unrelated-function": i}))))
     }
     fn case_timeout(&self, _tier: Tier) -> u64 {
         300
     }
     fn run(&self, case: &Value, ctx: &mut Ctx) -> Report {
         let mut rep = Report::default();
+        if let Some(i) = case["unrelated-function"].as_u64() {
+            run_unrelated_function(i as usize, ctx, &mut rep);
+            return rep;
+        }
         let i = case["program"].as_u64().unwrap() as usize;
         let (name, text): (String, String) = if i < SEEDS.len() {
             (format!("seed{}", i), seed_text(i).0)
